@@ -127,6 +127,10 @@ impl Prop for C20 {
         let maxlen = if tier == "thorough" { 6 } else { 5 };
         let alpha = ops_alphabet(3).len();
         let mut v = vec![];
+        // two owners of one key value (a key and its clone) dropped at the same moment on two threads
+        for b in 0..(if tier == "thorough" { 40 } else { 8 }) { v.push(case(&[("ty", "race".into()), ("batch", b.to_string())])); }
+        // constructors: byte strings of every length 0..130 in three alphabets (raw bytes, hexadecimal digits, base64 text); whatever becomes a key is dropped and its block inspected
+        for alphabet in ["raw", "hex", "b64"] { for len in 0..=130usize { v.push(case(&[("ty", "ctor".into()), ("alphabet", alphabet.into()), ("len", len.to_string())])); } }
         for ty in ["private", "payload", "payload-boxed", "payload-unaligned"] {
             let mut total = 0usize; let mut p = 1usize;
             for _ in 0..=maxlen { total += p; p *= alpha; }
@@ -138,6 +142,58 @@ impl Prop for C20 {
     }
     fn run(&self, c: &Case, _m: &mut Model) -> Outcome {
         let mut o = Outcome::default();
+        if get(c, "ty") == "race" {
+            // serialised across the harness threads: the process-wide watch list has one user at a time
+            static GATE: std::sync::Mutex<()> = std::sync::Mutex::new(());
+            let _g = GATE.lock().unwrap_or_else(|e| e.into_inner());
+            let trials = 400usize; let mut dirty_total = 0usize; let mut missing = 0usize; let mut first: Option<usize> = None;
+            for t in 0..trials {
+                let raw: Vec<u8> = (0..32).map(|i| (t * 13 + i * 5 + 1) as u8 | 1).collect();
+                let a = PrivateKey::try_from(raw.as_slice()).unwrap(); let b = a.clone();
+                let (pa, pb) = (a.as_bytes().as_ptr() as usize, b.as_bytes().as_ptr() as usize);
+                let _ = kalloc::drops::gtake();
+                kalloc::drops::gwatch(pa); if pb != pa { kalloc::drops::gwatch(pb); }
+                let expect = if pb != pa { 2 } else { 1 };
+                let bar = std::sync::Arc::new(std::sync::Barrier::new(2)); let bar2 = bar.clone();
+                let h = std::thread::spawn(move || { bar2.wait(); drop(b); });
+                bar.wait(); drop(a);
+                let _ = h.join();
+                let (rel, dirty) = kalloc::drops::gtake();
+                if dirty > 0 && first.is_none() { first = Some(t); }
+                dirty_total += dirty; if rel < expect { missing += 1; }
+            }
+            o.validated += 1; o.nontrivial = Some(format!("race/{}", get(c, "batch"))); o.tags.push("race: key and clone dropped on two threads".into());
+            o.impl_obs = format!("{} trials: {} blocks released with secret bytes, {} trials with a block not released", trials, dirty_total, missing);
+            o.model_obs = "every release carries zeros, whichever thread performs it".into();
+            if dirty_total > 0 { o.oracle_fail = Some(("secret-erased-before-release".into(), format!("a key and its clone dropped at the same moment on two threads: in {} of {} trials (first: trial {}) a key buffer went back to the allocator still holding the key", dirty_total, trials, first.unwrap_or(0)))); }
+            else if missing > 0 { o.oracle_fail = Some(("secret-erased-before-release".into(), format!("a key and its clone dropped on two threads: in {} of {} trials a key buffer was never released", missing, trials))); }
+            return o;
+        }
+        if get(c, "ty") == "ctor" {
+            let len = getn(c, "len");
+            let input: Vec<u8> = (0..len).map(|i| match get(c, "alphabet") { "hex" => b"0123456789abcdefABCDEF"[(i * 7 + len) % 22], "b64" => b"ABCDEFGHIJKLMNOPQRSTUVWXYZabcdefghijklmnopqrstuvwxyz0123456789+/"[(i * 11 + len) % 64], _ => (i * 37 + len * 3 + 1) as u8 }).collect();
+            kalloc::drops::clear();
+            let r = std::panic::catch_unwind(|| PrivateKey::try_from(input.as_slice()));
+            o.model_obs = if len == 32 { "accepted (exactly 32 bytes), wiped on drop".into() } else { "rejected (a private key is exactly 32 bytes)".into() };
+            o.tags.push(format!("ctor {}", get(c, "alphabet"))); o.validated += 1;
+            match r {
+                Err(_) => { o.impl_obs = "panic".into(); o.disagreement = Some(format!("PrivateKey::try_from panicked on a {}-byte input", len)); }
+                Ok(Err(_)) => { o.impl_obs = "rejected".into(); if len == 32 { o.disagreement = Some("PrivateKey::try_from rejects a 32-byte input".into()); } }
+                Ok(Ok(k)) => {
+                    let addr = k.as_bytes().as_ptr() as usize; kalloc::drops::watch(addr, k.as_bytes().len());
+                    let secret = k.as_bytes().to_vec();
+                    drop(k);
+                    let seen = kalloc::drops::take_seen();
+                    o.nontrivial = Some(format!("ctor/{}/{}", get(c, "alphabet"), len));
+                    o.impl_obs = format!("accepted as a {}-byte key", secret.len());
+                    match seen.iter().find(|(a, _)| *a == addr) {
+                        None => { o.oracle_fail = Some(("secret-erased-before-release".into(), format!("a key built from a {}-byte {} input: its buffer was not released by drop", len, get(c, "alphabet")))); }
+                        Some((_, bytes)) => { if bytes.iter().any(|&x| x != 0) { o.oracle_fail = Some(("secret-erased-before-release".into(), format!("a key built from a {}-byte {} input: the {}-byte block released by drop still holds {} non-zero bytes ({})", len, get(c, "alphabet"), bytes.len(), bytes.iter().filter(|&&x| x != 0).count(), hex(bytes)))); } } }
+                    if o.oracle_fail.is_none() && len != 32 { o.disagreement = Some(format!("PrivateKey::try_from accepts a {}-byte {} input (the model: exactly 32 bytes)", len, get(c, "alphabet"))); }
+                }
+            }
+            return o;
+        }
         let alpha = ops_alphabet(3); let n = alpha.len();
         let mut idx = getn(c, "idx"); let mut len = 0; let mut p = 1;
         while idx >= p { idx -= p; p *= n; len += 1; }
